@@ -509,3 +509,30 @@ def rule_defaults(ctx):
             if mutable:
                 ctx.ob('A5.default', f, 'default %s' % norm(d), False, 'mutable default value shared by all calls', node=d)
     ctx.ob('A5.default', 'pyasn1', 'no mutable default argument values', True, '%d default values inspected' % n, nontrivial=False)
+
+
+def rule_option_latch(ctx):
+    """A5.latch: per-component encoder options kept in the shared `options` dict are recomputed on every iteration.
+
+    `options` is one dict for all iterations of a component loop; an option that is only ever switched on
+    (`options.update(k=True)` under a condition) stays on for the members encoded afterwards."""
+    n = 0
+    for f in ctx.prog.all_functions():
+        if not f.module.name.startswith('pyasn1.codec.') or 'encoder' not in f.module.name:
+            continue
+        for lp in [x for x in walk_own(f.node) if isinstance(x, (ast.For, ast.While))]:
+            for c in ast.walk(lp):
+                stores = []
+                if isinstance(c, ast.Call) and norm(c.func) == 'options.update':
+                    stores = [(k.arg, k.value) for k in c.keywords if k.arg]
+                elif isinstance(c, ast.Assign) and any(isinstance(t, ast.Subscript) and norm(t.value) == 'options' for t in c.targets):
+                    stores = [(norm(c.targets[0].slice), c.value)]
+                for key, val in stores:
+                    n += 1
+                    latch = isinstance(val, ast.Constant) and bool(val.value)
+                    ctx.ob('A5.latch', f, 'options[%s] = %s inside a component loop' % (key, norm(val)), not latch,
+                           'the option is set to a constant inside the loop and never reset: once switched on it also applies to '
+                           'the components encoded later (the options dict is shared by all iterations)' if latch else
+                           'recomputed from the current component', node=c)
+    if n < 3:
+        raise AnalysisError('A5.latch found only %d option stores in encoder loops' % n)
